@@ -3,6 +3,7 @@
 from __future__ import annotations
 
 import ast
+import re
 
 from .core import AnalysisError, Check, Finding
 from .escape import Escape
@@ -291,6 +292,13 @@ def run_entry(check: Check, repo: Repo, entry: str, allowed: set[str], rule: str
         if site.kind == "assert" and site.expr in ("state.parser", "self.parser") and parser_is_set(repo):
             check.oblige(rule, site.func, f"assert {site.expr}: every ParserState the interpreter builds gets the Parser in that field (premise re-checked by role binding)", True)
             continue
+        if site.exc == "KeyError" and site.kind == "subscript" and _RULE_LOOKUP.fullmatch(site.expr) and (not site.expr.startswith("self.rules") or "::Parser." in site.func) \
+                and not ("from_grammar" in entry or "/grammar/" in entry and "expressions" not in entry):
+            # while parsing, a rule looked up in the parser's table by a plain name: the property ranges over start
+            # rules of the grammar and over grammars whose references are defined (the same reason as the triage
+            # entries for Parser.parse / Identifier.parse, stated for the construct instead of for one spelling)
+            check.oblige(rule, site.func, f"{site.expr}: a rule looked up by name; unknown start rules and undefined references are outside the property's quantifier", True)
+            continue
         tri = TRIAGE.get(site.key())
         stale = None
         if tri and tri[0] == "SAFE" and not triage_trusted(repo, site.key()):
@@ -335,6 +343,9 @@ def run_entry(check: Check, repo: Repo, entry: str, allowed: set[str], rule: str
 
 
 _COV_DONE: dict[str, bool] = {}
+
+
+_RULE_LOOKUP = re.compile(r"(state\.parser|self\.parser|self)\.rules\[[A-Za-z_][\w.]*\]")
 
 
 def _exc_matches(raised: str, charged: str) -> bool:
